@@ -2347,6 +2347,8 @@ impl Residual {
             rice_params.len() == 1usize << partition_order,
             "must be identical with the number of partitions"
         )?;
+        // `from_parts` multiplies the block size with the largest quotient.
+        verify_block_size!("block_size", block_size)?;
         let ret = Self::from_parts(
             partition_order as u8,
             block_size,
